@@ -1,4 +1,5 @@
 #include "runtime.h"
+#include "d_scalar.h"
 #include "verif_hooks.h"
 #include "diagnostics/stacktrace.h"
 #include "d_array.h"
@@ -316,6 +317,8 @@ sqf::runtime::runtime::result sqf::runtime::runtime::execute(sqf::runtime::runti
 {
     sqf::runtime::runtime::result res = result::invalid;
     bool expected = false;
+    // The scalar print mode is part of this runtime, not of the process
+    sqf::types::d_scalar::set_decimals(m_scalar_decimals);
     switch (action)
     {
     case action::leave_scope:
